@@ -23,9 +23,11 @@ Filtration data[NMAX]; Index data_n;
 bool g_has_prev; Filtration g_pb, g_pd; Filtration g_first;
 static Filtration* acc_data(Index k) { __CPROVER_assert(k < data_n, "element access within the live part of data"); return &data[k]; }
 #define DATA(k) (*acc_data(k))
-static void vec_push(Filtration v) { __CPROVER_assert(data_n < NMAX, "data never holds more elements than were read"); data[data_n] = v; data_n++; }
+bool g_pending;   /* a sample has been read and not yet stored into data */
+#define DATA_SET(k, x) do { (*acc_data(k)) = (x); g_pending = false; } while (0)
+static void vec_push(Filtration v) { g_pending = false; __CPROVER_assert(data_n < NMAX, "data never holds more elements than were read"); data[data_n] = v; data_n++; }
 static void vec_drop(Index k) { __CPROVER_assert(k <= data_n, "pop / erase within the live part of data"); data_n -= k; }
-static Filtration acc_in(Index k) { __CPROVER_assert(k < g_n, "read within the input range"); return g_in[k]; }
+static Filtration acc_in(Index k) { __CPROVER_assert(k < g_n, "read within the input range"); __CPROVER_assert(!g_pending, "a sample is read only after the previous one has been stored (no sample is dropped)"); g_pending = true; return g_in[k]; }
 static void out_rec(Filtration b, Filtration d) {
   __CPROVER_assert(!g_has_prev || LT(g_pb, g_pd), "every bar but the last has birth < death");
   g_has_prev = true; g_pb = b; g_pd = d;
